@@ -182,6 +182,7 @@ def features(h):
     predicted = set()
     docs = []           # baseline behind every stored document
     loads = []          # (slot, baseline of the document) in load order
+    restored = {}       # slot -> baseline of the document it was restored from
     for a in h:
         op = a["op"]
         f.add(("op", op))
@@ -193,8 +194,13 @@ def features(h):
             loads = []
         elif op == "load" and 1 <= a.get("docix", 0) <= len(docs):
             loads.append((a["s"], docs[a["docix"] - 1]))
+            restored[a["s"]] = docs[a["docix"] - 1]
             f.add(("loaded-together", len({d for _, d in loads})))
-        elif op in ("sweep", "predict") and loads:
+        if op in ("sweep", "predict") and a["s"] in restored:
+            f.add(("restored-model-used", restored[a["s"]]))         # per baseline: every stored model is also USED after it was read back
+        if op == "fit":
+            restored.pop(a["s"], None)
+        if op in ("sweep", "predict") and loads:
             # a restored model is used after ANOTHER stored model was restored in the same process
             mine = [k for k, (sl, _) in enumerate(loads) if sl == a["s"]]
             if mine and any(k > mine[-1] and d != loads[mine[-1]][1] for k, (_, d) in enumerate(loads)):
@@ -231,7 +237,7 @@ def features(h):
 
 # features that only a particular sequence of calls exercises: they outweigh the many (baseline x report) pair features
 RARE = {"same-data-predicted-again-after-the-returned-frame-was-overwritten", "used-after-another-model-was-restored", "predict-on-the-fitted-baseline-object",
-        "refit-on-other-data", "predict-after-the-model-object-was-refitted", "longer-report-predicted-after-a-single-day-or-week"}
+        "refit-on-other-data", "predict-after-the-model-object-was-refitted", "longer-report-predicted-after-a-single-day-or-week", "restored-model-used"}
 RARE_WEIGHT = 25
 
 
@@ -266,6 +272,15 @@ def reference_histories(chosen):
     within the run (the P-layer's Core(m, d) does not depend on what the object was fitted on before)."""
     out, seen = [], set()
     for h in chosen:
+        # ... and for every chosen history in which unrelated prior work (Other) precedes a fit, the same history WITHOUT that work:
+        # the cold counterpart, so that `regardless of what the library was used for beforehand` is decided on the same meter, seed and slot
+        ops = [a["op"] for a in h]
+        if "other" in ops and "fit" in ops and ops.index("other") < len(ops) - 1 - ops[::-1].index("fit"):
+            cold = [dict(a) for a in h if a["op"] != "other"]
+            key = json.dumps(cold, sort_keys=True)
+            if key not in seen:
+                seen.add(key)
+                out.append(cold)
         news, fitted, refitted, uses = {}, {}, {}, {}
         for a in h:
             if a["op"] == "new":
@@ -336,6 +351,8 @@ def expand(hist, scen, fam, aggs, salt, remote_restart, prof=""):
             need(a["d"])
         if op == "predict":
             a.setdefault("agg", "None")
+        if op == "other":
+            a["fam"] = fam
         if op == "new" and scen != "warm":
             # a decoy: right after a model object is constructed, OTHER settings and model objects (other calendar maps, uncertainty
             # level, supplemental columns) are built and thrown away - what a model does later is governed by its own settings
